@@ -2295,6 +2295,9 @@ def _np_minmax(kind):
     def f(x, axis=None, out=None, keepdims=False, initial=None, where=None, **kw):
         if out is not None:
             raise Unsupported(f"numpy.{kind}(out=...)")
+        if isinstance(x, (list, tuple)) and len({np.shape(_obj(e)) for e in x}) > 1:
+            # a sequence of arrays of different shapes does not make an array (NumPy >= 1.24 refuses ragged input)
+            raise ValueError("setting an array element with a sequence. The requested array has an inhomogeneous shape after 1 dimensions.")
         xa = SymArray(_obj1(x))
         pick = _maximum if kind == "max" else _minimum
         if where is not None and where is not True:
